@@ -16,9 +16,10 @@ from .c19_build import BOOL, F16, F32, F64, G, I32, I64, INT64_MAX, NP  # noqa: 
 FAMILIES = {}
 
 
-def family(name, tier, params, build, fusions, valid=None, near=None, spec_extra=None):
+def family(name, tier, params, build, fusions, valid=None, near=None, canon=None, bound=None):
     FAMILIES[name] = dict(name=name, tier=tier, params=params, build=build, fusions=fusions,
-                          valid=valid or (lambda c: True), near=near or (lambda c: []))
+                          valid=valid or (lambda c: True), near=near or (lambda c: []), canon=canon,
+                          bound=bound or {})
 
 
 def _ulp(v, n, npdt=np.float32):
@@ -73,6 +74,7 @@ RMS_TYPING = {
     "f16>f32,s16>32": (F16, F32, None, F16, F32),
     "f32,n>f16,s16": (F32, None, F16, F16, None),
     "f32>f32": (F32, F32, None, F32, None),
+    "f32,s16>32": (F32, None, None, F16, F32),
     "f32>f64,n>f32": (F32, F64, F32, F32, None),
 }
 
@@ -147,7 +149,7 @@ def _rms_near(c):
     out = []
     for p, bad in (("axis", (2, 1)), ("pow", ("3.0",)), ("eps_shape", ([1, 1, 1, 1],)), ("recip", ("Div",)),
                    ("xr_order", ("r*x",)), ("add_order", ("eps+mean",)), ("scale_shape", ("11D", "1", "SD")),
-                   ("rm_attrs", ("omitted",)), ("typing", ("f16", "f16>f32,s16>32", "f32>f64,n>f32"))):
+                   ("rm_attrs", ("omitted",)), ("typing", ("f16", "f16>f32,s16>32", "f32,s16>32", "f32>f64,n>f32"))):
         if c.get(p) in bad:
             out.append(f"{p}={c[p]}")
     return out
@@ -155,7 +157,9 @@ def _rms_near(c):
 
 family("rms", "quick",
        BSD + RMS_DEV + [("extra_out", ["none", "normalized", "mean"], "dev"), ("sym", [False, True], "dev")],
-       build_rms, lambda c: [("rms_normalization", ["rms"])], near=_rms_near)
+       build_rms, lambda c: [("rms_normalization", ["rms"])], near=_rms_near,
+       canon=lambda kind, fusion, c, detail: "scale-is-Cast-to-compute-dtype(output-dtype-changes)"
+       if (c["typing"] in ("f16>f32,s16>32", "f32,s16>32") and kind == "ort-load-fails") else None)
 
 # ---------------------------------------------------------------------------------------------
 # Skip (RMS | Layer) normalization   (skip_normalization_unit_test.py)
@@ -169,7 +173,7 @@ def _build_skip(c, kind):
     sym = c["sym"]
     inp = g.inp("input", dt, [B, S, D], decl=_decl([B, S, D], sym))
     sshape = {"BSD": [B, S, D], "1SD": [1, S, D], "SD": [S, D], "11D": [1, 1, D]}[c["skip_shape"]]
-    skip = g.inp("skip", dt, sshape, decl=_decl(sshape, sym and len(sshape) == 3 and sshape[0] == B))
+    skip = g.inp("skip", dt, sshape, decl=_decl(sshape, sym and c["skip_shape"] == "BSD"))
     bias = None
     if c["bias"] != "none":
         bshape = {"D": [D], "11D": [1, 1, D], "SD": [S, D], "1": [1]}[c["bias_shape"]]
@@ -377,7 +381,7 @@ family("gelu_erf", "quick",
         ("dtype", ["f32", "f16"], "dev"),
         ("c_s2", CVAR, "dev"), ("c_one", CVAR, "dev"), ("c_half", CVAR, "dev"),
         ("div", ["Div", "MulRecip"], "dev"), ("const_shape", ["[]", "[1]"], "dev"),
-        ("const_kind", ["node", "init"], "dev"), ("bias", ["none", "D", "1", "1D"], "dev"),
+        ("const_kind", ["node", "init"], "dev"), ("bias", ["none", "D"], "dev"),
         ("ob", lambda c: [False] if c["bias"] == "none" else [False, True], "dev")] + _flags(["o1", "o2", "o3"]),
        build_erf, lambda c: [("gelu", ["gelu"]), ("erf_gelu", ["erfgelu"])] +
        ([("erf_gelu+bias_gelu", ["erfgelu", "bias_gelu"])] if c["bias"] != "none" else []),
@@ -429,7 +433,8 @@ family("bias_gelu", "quick",
               ("order", ["input+bias", "bias+input"], "dev"),
               ("approx", lambda c: ["absent", "none", "tanh"] if c["gelu"] == "onnx" else ["absent"], "dev"),
               ("extra_out", [False, True], "dev")],
-       build_bias_gelu, lambda c: [("bias_gelu", ["bias_gelu"])], near=_bg_near)
+       build_bias_gelu, lambda c: [("bias_gelu", ["bias_gelu"])], near=_bg_near,
+       canon=lambda kind, fusion, c, detail: "bias-length!=input-last-dim" if kind == "ort-load-fails" else None)
 
 # ---------------------------------------------------------------------------------------------
 # Softmax upcast removal     softmax_test.py
@@ -574,13 +579,29 @@ def _fmm_near(c):
     return sorted(set(out))
 
 
+def _fmm_canon(kind, fusion, c, detail):
+    rank = c["rank"]
+    if kind == "raises" and "'perm'" in detail:
+        return "Transpose-without-perm-feeding-FusedMatMul-rank>2"
+
+    def swapped(t):
+        return t == list(range(rank - 2)) + [rank - 1, rank - 2] or (t == "noattr" and rank == 2)
+    fmm = c["mm"] if isinstance(c["mm"], dict) else {}
+    ta = bool(fmm.get("transA")) != swapped(c["trA"])
+    tb = bool(fmm.get("transB")) != swapped(c["trB"])
+    if c["trOut"] != "none" and ta != tb and not c["div"]:
+        return "output-Transpose-of-FusedMatMul-with-transA!=transB"
+    return None
+
+
 family("fused_matmul", "quick",
        [("rank", [2, 3, 4], "all"),
         ("mm", FMM_ATTRS, "dev"),
         ("trA", lambda c: _perms(c["rank"]), "dev"), ("trB", lambda c: _perms(c["rank"]), "dev"),
         ("trOut", lambda c: _perms(c["rank"]), "dev"),
         ("div", DIVS, "dev"), ("dtype", ["f32", "f16"], "dev"), ("const_kind", ["node", "init"], "dev")],
-       build_fused_matmul, lambda c: [("fused_matmul", ["fused_matmul"])], valid=_fmm_valid, near=_fmm_near)
+       build_fused_matmul, lambda c: [("fused_matmul", ["fused_matmul"])], valid=_fmm_valid, near=_fmm_near,
+       canon=_fmm_canon)
 
 # ---------------------------------------------------------------------------------------------
 # InstanceNormalization simulating GroupNorm     instance_to_group_normalization_test.py
